@@ -34,8 +34,12 @@ if PHASE in ('confirm', 'both'):
     json.dump(conf, open(cj, 'w'), indent=1)
     print(name, 'confirmed' if conf['ok'] else 'NOT CONFIRMED', json.dumps(conf)[:300])
 if PHASE == 'confirm': sys.exit(0)
-conf = json.load(open(cj))
+mj = os.path.join(out, 'meta.json')
+old_meta = json.load(open(mj)) if os.path.exists(mj) else {}
+conf = json.load(open(cj)) if os.path.exists(cj) else old_meta['confirmed']       # a re-run after the checks were strengthened
 meta = {'name': name, 'breaks_property': pid, 'confirmed': conf}
+if old_meta.get('check_results'):
+    meta['earlier_results'] = old_meta.get('earlier_results', []) + [{k: {'exit': v['exit'], 'summary': v['summary']} for k, v in old_meta['check_results'].items()}]
 results = {}
 if conf['ok']:
     rc, o = sh('git -C /repo apply %s/patch.diff' % out)
